@@ -112,15 +112,57 @@ def theorem_names(prop_file):
     return re.findall(r'(?m)^Theorem (\w+)', src)
 
 
+def coq_N_list(b):
+    if isinstance(b, str):
+        b = [ord(c) for c in b]
+    return '[' + ';'.join(str(x) for x in b) + ']%N'
+
+
+def run_cases(tag, header, cases, shard=400, timeout=900):
+    """cases: list of Gallina boolean expressions (strings). Evaluated by vm_compute in shards.
+    returns (n_evaluated, failing indices or None when evaluation itself failed, raw tail)"""
+    os.makedirs(os.path.join(COQ, 'Cases'), exist_ok=True)
+    files = []
+    for k in range(0, len(cases), shard):
+        chunk = cases[k:k + shard]
+        path = os.path.join(COQ, 'Cases', 'cases_%s_%d.v' % (tag, k // shard))
+        lines = list(header)
+        for i, c in enumerate(chunk):
+            lines.append('Definition ok_%d : bool := %s.' % (i, c))
+        lines.append('Definition oks : list bool := [%s].' % '; '.join('ok_%d' % i for i in range(len(chunk))))
+        lines.append('Definition failing : list nat := filter (fun i => negb (nth i oks true)) (seq 0 (length oks)).')
+        lines.append('Eval vm_compute in (length oks, failing).')
+        open(path, 'w').write('\n'.join(lines) + '\n')
+        files.append((k, path))
+
+    def one(kp):
+        k, path = kp
+        p = subprocess.run(['timeout', str(timeout), 'coqc', '-R', '.', 'PM', os.path.relpath(path, COQ)], cwd=COQ, stdout=subprocess.PIPE, stderr=subprocess.STDOUT, text=True)
+        m = re.search(r'=\s*\((\d+),\s*\[(.*?)\]\)', p.stdout, re.S)
+        if p.returncode != 0 or not m:
+            return k, None, p.stdout[-1500:]
+        return k, (int(m.group(1)), [int(x) for x in re.findall(r'\d+', m.group(2))]), ''
+    from concurrent.futures import ThreadPoolExecutor
+    n, failing, raw = 0, [], ''
+    with ThreadPoolExecutor(8) as ex:
+        for k, r, out in ex.map(one, files):
+            if r is None:
+                return n, None, out
+            n += r[0]
+            failing += [k + i for i in r[1]]
+    return n, failing, raw
+
+
 # ----------------------------------------------------------------------------------------------- known findings
 def load_known():
-    path = os.path.join(VERIF, 'KNOWN_FINDINGS.jsonl')
+    path = os.path.join(VERIF, 'KNOWN_FINDINGS.txt')
     out = []
     if os.path.exists(path):
         for line in open(path):
             line = line.strip()
-            if line and not line.startswith('#'):
-                out.append(json.loads(line))
+            m = re.match(r'finding: property=(\S+) signature=(\S+) :: (.*)', line)
+            if m:
+                out.append({'status': 'finding', 'property': m.group(1), 'signature': m.group(2), 'what': m.group(3)})
     return out
 
 
@@ -147,6 +189,12 @@ class Result:
         self.discharged = 0
         self.trusted = []
         self.notes = {}
+        import glob
+        for f in glob.glob(os.path.join(VERIF, 'replay', pid + '-*.json')):
+            try:
+                os.remove(f)
+            except OSError:
+                pass
 
     def add_violation(self, signature, what, replay):
         self.violations.append({'signature': signature, 'what': what, 'replay': replay})
@@ -207,7 +255,7 @@ class Result:
         return rc
 
 
-def standard_proof_phase(res, translators, prop_file, extra_targets=()):
+def standard_proof_phase(res, translators, prop_file, extra_targets=(), model_targets=()):
     """translate -> grep gate -> build -> Print Assumptions. Fills res.broken / obligations."""
     with coq_lock():
         for n, msg in translate(translators):
@@ -216,6 +264,11 @@ def standard_proof_phase(res, translators, prop_file, extra_targets=()):
         if bad:
             res.broken.append(('gate', 'forbidden construct in the development: ' + '; '.join(bad)))
         target = prop_file[:-2] + '.vo'
+        if model_targets:
+            okm, logm = coq_build(list(model_targets))
+            if not okm:
+                err = [l for l in logm.splitlines() if 'Error' in l or l.startswith('File ')]
+                res.broken.append(('model', 'the executable model no longer builds against the regenerated Gen/ files: ' + ' | '.join(err[:6])))
         try:
             os.remove(os.path.join(COQ, target))     # force re-checking of the property file itself so that its Print Assumptions output is in the log
         except OSError:
